@@ -313,12 +313,14 @@ func (ig *ingest) voteCreation(e *Effect) {
 	ev.Verdict("S5.increment", props("C10", "C05"), "the view entered on an election timeout is exactly the previous view + 1 (successful SetView(view+1))", "", okInc, "no successful SetView(previous view + 1) on the path")
 	// LK1: prepared argument
 	pl := Field(k.TIC, "preparedLocally")
+	isPrepared := T("and", "", Bin("!=", pl, tNil), Field(pl, "isPreparedLocally"))
 	want := Call("preparedmessages.ExtractPreparedMessages", h, Field(pl, "latestView"), k.ST, k.Cmt)
-	isPrep := []*Atom{Ne(pl, tNil), Truth(Field(pl, "isPreparedLocally"))}
-	switch {
-	case ev.Has(isPrep[0]) != nil && ev.Has(isPrep[1]) != nil:
+	has := func(a *Atom) bool { return ev.Has(a) != nil }
+	prepared = ev.Simplify(prepared)
+	switch evalBool(isPrepared, has) {
+	case 1:
 		ev.Verdict("LK1", props("C09", "C11", "C01"), "a prepared node's vote carries ExtractPreparedMessages(height, preparedLocally.latestView, storage, the term's committee)", "prepared", ev.Same(prepared, want), "prepared argument is "+PP(prepared))
-	case ev.Has(Eq(pl, tNil)) != nil || ev.Has(NotA(Truth(Field(pl, "isPreparedLocally")))) != nil:
+	case -1:
 		ev.Verdict("LK1", props("C09", "C11", "C01"), "an unprepared node's vote carries no prepared messages", "unprepared", prepared.Key() == tNil.Key(), "prepared argument is "+PP(prepared))
 	default:
 		ev.Verdict("LK1.split", props("C09", "C01"), "vote creation splits on whether the node is prepared", "", false, "preparedness is not decided on this path")
